@@ -26,17 +26,17 @@ open SynKit.Canon (StrictTotal minBy minBy_mem minBy_key_congr IRPartOK LGraph_i
 
 /-! ## What the search returns -/
 
-/-- On a graph with distinct node ids (for which the search is defined) the search returns a leaf
+/-- On a graph with distinct node ids the search returns a leaf
 of the search tree — the first one with the least label — whose permutation orders all nodes,
 together with the permutations of all leaves that carry the least label. -/
 theorem crnIrWith_spec (lt : CrnLabel → CrnLabel → Bool) (hlt : StrictTotal lt) (sel : SelD) (G : LGraph)
-    (hn : G.ids.Nodup) (hd : CrnDefined sel G) :
+    (hn : G.ids.Nodup) :
     ∃ m ∈ crnRootLeaves sel G,
       crnIrWith lt sel G = some ⟨crnLeafLabel sel G m, m.2, crnWithLabel sel G (crnLeafLabel sel G m) (crnRootLeaves sel G)⟩ ∧
       m.2.Perm G.ids ∧ ∀ l ∈ crnRootLeaves sel G, lt (crnLeafLabel sel G l) (crnLeafLabel sel G m) = false := by
   rw [crnIrWith_eq_fold]
-  have hne := crnRootLeaves_ne_nil sel G hn hd
-  have hperm := crnRootLeaves_perm sel G hn hd
+  have hne := crnRootLeaves_ne_nil sel G hn
+  have hperm := crnRootLeaves_perm sel G hn
   cases hL : crnRootLeaves sel G with
   | nil => exact absurd hL hne
   | cons a as =>
@@ -50,8 +50,8 @@ theorem isOrder_of_perm {G : LGraph} {o : List Nat} (hn : G.ids.Nodup) (h : o.Pe
   ⟨h.nodup_iff.2 hn, fun _ => h.mem_iff⟩
 
 theorem crnOrderOf_isOrder (lt : CrnLabel → CrnLabel → Bool) (hlt : StrictTotal lt) (sel : SelD) (G : LGraph)
-    (hn : G.ids.Nodup) (hd : CrnDefined sel G) : IsOrder G (crnOrderOf (crnIrWith lt sel G)) := by
-  obtain ⟨m, _, e, hp, _⟩ := crnIrWith_spec lt hlt sel G hn hd
+    (hn : G.ids.Nodup) : IsOrder G (crnOrderOf (crnIrWith lt sel G)) := by
+  obtain ⟨m, _, e, hp, _⟩ := crnIrWith_spec lt hlt sel G hn
   rw [e]
   exact isOrder_of_perm hn hp
 
@@ -93,21 +93,6 @@ theorem isIsoF_of_ids_nil (sel : SelD) {A B : LGraph} (hA : A.ids = []) (hB : B.
   node p hp := by rw [hB] at hp; exact absurd hp List.not_mem_nil
   arc p hp := by rw [hB] at hp; exact absurd hp List.not_mem_nil
 
-theorem CrnIso.defined {sel : SelD} {G H : LGraph} {g : Nat → Nat} (h : CrnIso sel G H g) (hd : CrnDefined sel G) :
-    CrnDefined sel H := by
-  rcases hd with hd | hd
-  · left
-    intro e
-    have h1 := h.length_eq
-    have h2 := LGraph_ids_length G
-    have h3 := LGraph_ids_length H
-    rw [e] at h3
-    simp only [List.length_nil] at h3
-    apply hd
-    apply List.length_eq_zero_iff.1
-    omega
-  · exact Or.inr hd
-
 /-- **Invariance for every label order.** Two directed attribute graphs that are isomorphic on the
 selected keys (and whose selected attributes are never `None` / `""`) get the same minimum label,
 and their canonical graphs are identical on the selected keys. -/
@@ -118,40 +103,30 @@ theorem crnIrWith_invariant (lt : CrnLabel → CrnLabel → Bool) (hlt : StrictT
   have hiso := crnIso_of_isIsoF hG.1 hH.1 aG aH h
   have hlab := crnIrWith_label_rel lt hlt hG.1 hiso
   refine ⟨hlab, ?_⟩
-  by_cases hd : CrnDefined sel G
-  · have hdH := hiso.defined hd
-    obtain ⟨mG, hmG, eG, pG, _⟩ := crnIrWith_spec lt hlt sel G hG.1 hd
-    obtain ⟨mH, hmH, eH, pH, _⟩ := crnIrWith_spec lt hlt sel H hH.1 hdH
-    rw [eG, eH] at hlab ⊢
-    simp only [Option.map_some, Option.some.injEq] at hlab
-    simp only [crnOrderOf]
-    -- the image of `H`'s best leaf is a leaf of `G` with the least label
-    have hl2 : (mH.1.map g, mH.2.map g) ∈ crnRootLeaves sel G := (crnRootLeaves_rel hG.1 hiso _).2 ⟨mH, hmH, rfl⟩
-    have hlab2 : crnLeafLabel sel G (mH.1.map g, mH.2.map g) = crnLeafLabel sel G mG :=
-      (crnLeafLabel_rel hiso hmH).trans hlab.symm
-    obtain ⟨hf, hmap⟩ := crnIso_of_leaves sel G hG.1 hd aG _ _ hl2 hmG hlab2
-    simp only at hmap
-    have hF := isIsoF_of_crnIso hG.1 hf
-    have hord2 : IsOrder G (mH.2.map g) := isOrder_of_perm hG.1 ((pH.map g).trans hiso.perm)
-    obtain ⟨_, E1⟩ := canon_equivariant' sel G G _ (mH.2.map g) hG hG hF hord2
-    rw [hmap] at E1
-    obtain ⟨_, E2⟩ := canon_equivariant' sel H G g mH.2 hH hG h (isOrder_of_perm hH.1 pH)
-    exact isIsoF_trans E2 E1
-  · have hGe : G.ids = [] := by
-      by_contra hne
-      exact hd (Or.inl hne)
-    have hHe : H.ids = [] := by
-      have := hiso.perm.length_eq
-      rw [hGe] at this
-      simpa using this
-    exact isIsoF_of_ids_nil sel (by rw [canonBy, relabel_ids, hGe]; rfl) (by rw [canonBy, relabel_ids, hHe]; rfl)
+  obtain ⟨mG, hmG, eG, pG, _⟩ := crnIrWith_spec lt hlt sel G hG.1
+  obtain ⟨mH, hmH, eH, pH, _⟩ := crnIrWith_spec lt hlt sel H hH.1
+  rw [eG, eH] at hlab ⊢
+  simp only [Option.map_some, Option.some.injEq] at hlab
+  simp only [crnOrderOf]
+  -- the image of `H`'s best leaf is a leaf of `G` with the least label
+  have hl2 : (mH.1.map g, mH.2.map g) ∈ crnRootLeaves sel G := (crnRootLeaves_rel hG.1 hiso _).2 ⟨mH, hmH, rfl⟩
+  have hlab2 : crnLeafLabel sel G (mH.1.map g, mH.2.map g) = crnLeafLabel sel G mG :=
+    (crnLeafLabel_rel hiso hmH).trans hlab.symm
+  obtain ⟨hf, hmap⟩ := crnIso_of_leaves sel G hG.1 aG _ _ hl2 hmG hlab2
+  simp only at hmap
+  have hF := isIsoF_of_crnIso hG.1 hf
+  have hord2 : IsOrder G (mH.2.map g) := isOrder_of_perm hG.1 ((pH.map g).trans hiso.perm)
+  obtain ⟨_, E1⟩ := canon_equivariant' sel G G _ (mH.2.map g) hG hG hF hord2
+  rw [hmap] at E1
+  obtain ⟨_, E2⟩ := canon_equivariant' sel H G g mH.2 hH hG h (isOrder_of_perm hH.1 pH)
+  exact isIsoF_trans E2 E1
 
 /-! ## Fuel -/
 
 theorem crnIrWith_fuel (lt : CrnLabel → CrnLabel → Bool) (sel : SelD) (G : LGraph) (hn : G.ids.Nodup)
-    (hd : CrnDefined sel G) (d : Nat) :
+    (d : Nat) :
     crnSearch lt sel G (G.nodes.length + 1 + d) (crnInitPart sel G) [] none = crnIrWith lt sel G := by
-  rw [crnSearch_eq_fold, crnIrWith_eq_fold, crnLeaves_root_fuel sel G hn hd d]
+  rw [crnSearch_eq_fold, crnIrWith_eq_fold, crnLeaves_root_fuel sel G hn d]
 
 theorem crnRefine_fuel (sel : SelD) (G : LGraph) (P : List (List Nat)) (hok : IRPartOK G.ids P) (d : Nat) :
     crnRefineLoop sel G (G.nodes.length + 1 + d) P = crnRefine sel G P := by
@@ -203,11 +178,11 @@ Every such permutation differs from the first by a structure-preserving self-map
 structure-preserving self-map carries the first onto one of them (the search prunes nothing), so
 the position-wise merging produces exactly the classes of nodes exchangeable by automorphisms. -/
 theorem crnOrbits_exact (lt : CrnLabel → CrnLabel → Bool) (hlt : StrictTotal lt) (sel : SelD) (G : LGraph)
-    (hn : G.ids.Nodup) (hd : CrnDefined sel G) (hok : CrnAttrOK sel G) :
+    (hn : G.ids.Nodup) (hok : CrnAttrOK sel G) :
     IsPartition (crnOrbitsFromPerms (crnPermsOf (crnIrWith lt sel G))) G.ids ∧
     ∀ u ∈ G.ids, ∀ v ∈ G.ids,
       (SameClass (crnOrbitsFromPerms (crnPermsOf (crnIrWith lt sel G))) u v ↔ ∃ σ ∈ autsD sel G, app σ u = v) := by
-  obtain ⟨m, hm, e, pm, _⟩ := crnIrWith_spec lt hlt sel G hn hd
+  obtain ⟨m, hm, e, pm, _⟩ := crnIrWith_spec lt hlt sel G hn
   rw [e]
   simp only [crnPermsOf]
   have hmem := mem_crnWithLabel sel G (crnLeafLabel sel G m) (crnRootLeaves sel G)
@@ -221,12 +196,12 @@ theorem crnOrbits_exact (lt : CrnLabel → CrnLabel → Bool) (hlt : StrictTotal
     simp only [crnOrbitsFromPerms]
     -- every listed permutation is a least-label leaf
     obtain ⟨l0, hl0, hlab0, rfl⟩ := (hmem first).1 List.mem_cons_self
-    have p0 := crnRootLeaves_perm sel G hn hd l0 hl0
+    have p0 := crnRootLeaves_perm sel G hn l0 hl0
     have hnd0 : l0.2.Nodup := p0.nodup_iff.2 hn
     have hrest : ∀ p ∈ rest, ∃ f, IsIsoF sel G G f ∧ l0.2.map f = p := by
       intro p hp
       obtain ⟨l, hl, hlab, rfl⟩ := (hmem p).1 (List.mem_cons_of_mem _ hp)
-      obtain ⟨hf, hmap⟩ := crnIso_of_leaves sel G hn hd hok l0 l hl0 hl (hlab0.trans hlab.symm)
+      obtain ⟨hf, hmap⟩ := crnIso_of_leaves sel G hn hok l0 l hl0 hl (hlab0.trans hlab.symm)
       exact ⟨_, isIsoF_of_crnIso hn hf, hmap⟩
     have hmaps : ∀ mp ∈ rest.map (fun p => l0.2.zip p), ∀ sd ∈ mp, sd.1 ∈ l0.2 ∧ sd.2 ∈ l0.2 := by
       intro mp hmp sd hsd
